@@ -284,6 +284,10 @@ func applyChange(content string, lines []string, change TextDocumentContentChang
 	if startOffset > len(content) {
 		startOffset = len(content)
 	}
+	// A range whose end lies before its start is empty at its start
+	if endOffset < startOffset {
+		endOffset = startOffset
+	}
 
 	// Build new content
 	var result strings.Builder
